@@ -1125,6 +1125,10 @@ def parse_target(rest):
             # like sub, applied BEFORE the named rules (when a rule needs the shape the substitution produces)
             presubs.append('sub:' + v)
             continue
+        if k == 'presubopt':
+            # presub that may match nothing
+            presubs.append('sub?:' + v)
+            continue
         if k == 'subopt':
             # like sub, but allowed to match nothing (the statement it abstracts may legitimately be absent)
             subs.append('sub?:' + v)
